@@ -179,7 +179,7 @@ def check_prog(r, payload, ds, ploidies, thr, den, tagp):
         data.read_counts[s] = np.zeros(0, int)
     tag = "%s|thr=%g|posteriors=%s" % (tagp, thr, ds)
     try:
-        with patched((asm, "DenovoMCMC", FakeMCMC)):
+        with patched((asm, "DenovoMCMC", FakeMCMC)), env.app_warnings():
             prog.call_sample_genotypes(data)
     except Exception as e:  # noqa
         from ..synth import root_cause
